@@ -184,6 +184,12 @@ def run(ctx):
     if meta:
         errname = {i: "err:%s:%s" % (k, g) for i, (k, g) in enumerate(meta["errors"])}
         shapes = [(f, g) for (f, g, how) in meta["shapes"] if f]
+    # the oracle's notion of "the options naming a setting" is the public API convention
+    # set_<field> -> <field>; it does not depend on the extraction (which may fail on an edited tree)
+    api_shapes = [(f, f[4:]) for f in OFIELDS]
+    if meta and sorted(shapes) != sorted(api_shapes) and r["ok"]:
+        r["ok"] = False; r["failures"].append("the statements of ConfigOptions::apply no longer map set_<field> to <field>: %s" % sorted(set(shapes) ^ set(api_shapes)))
+    shapes = api_shapes
     named_by = {}
     for f, g in shapes: named_by.setdefault(g, []).append(f)
 
@@ -294,11 +300,13 @@ def run(ctx):
                 cls, mem, cold, hotc, w, o_both, o_alone, o_only = t
                 if cls == "panic":
                     V("apply_config panics", "step %d" % k); break
-                bad = [x for x in (cold, hotc, o_both, o_alone, o_only) if x.startswith("decode-") or x.startswith("open-")]
+                bad = [x for x in (cold, hotc) if x.startswith("decode-")]
                 if bad:
-                    V("after %s the repository cannot be %s: %s" % ("init" if k == 0 else "a configuration change",
-                      "decoded" if bad[0].startswith("decode-") else "opened in every way (both parts / cold part alone / open_only_cold)", bad[0][:120]),
-                      "step %d: stored cold=%s hot=%s open both=%s cold-alone=%s only-cold=%s" % (k, cold, hotc, o_both[:60], o_alone[:60], o_only[:60])); break
+                    V("after %s a stored configuration file cannot be decoded: %s" % ("init" if k == 0 else "a configuration change", bad[0][:120]), "step %d" % k); break
+                failed_open = [(nm, x) for nm, x in (("both parts", o_both), ("cold part alone", o_alone), ("open_only_cold", o_only)) if x.startswith("open-")]
+                for nm, x in failed_open:
+                    V("after %s the repository cannot be opened (%s): %s" % ("init" if k == 0 else "an accepted configuration change", nm, x[:110]),
+                      "step %d: stored cold=%s hot=%s" % (k, cold, hotc))
                 M, C = parse_cfg(mem), parse_cfg(cold)
                 H = parse_cfg(hotc) if hot else None
                 o = dict(zip(OFIELDS, toks[2 + 16 * k: 18 + 16 * k]))
@@ -312,7 +320,7 @@ def run(ctx):
                         V("stored configuration differs from repo.config() in %s" % g, "step %d" % k)
                 # every way of opening sees the stored settings
                 for nm, oc in (("both parts", o_both), ("cold part alone", o_alone), ("open_only_cold", o_only)):
-                    if oc == "na": continue
+                    if oc == "na" or oc.startswith("open-"): continue
                     O = parse_cfg(oc)
                     if any(O[g] != M[g] for g in CFIELDS if g != "is_hot"):
                         V("opening the repository (%s) shows settings other than the current ones" % nm, "step %d" % k)
@@ -339,6 +347,7 @@ def run(ctx):
                             if o[f] != "-" and (C[g] != o[f] or (hot and H[g] != o[f])):
                                 V("an effective change did not store the named setting %s" % f, "step %d" % k)
                 prev = (mem, cold, hotc, w)
+                if failed_open: break
             else:
                 if parts[-1] != "end=ok":
                     V("an accepted configuration does not work: backup through the repository, then check --read-data / restore on the cold part alone: %s" % parts[-1][:150], parts[-1])
